@@ -5079,8 +5079,9 @@ class Entity(object, metaclass=EntityMeta):
                                                          "and 'cascade_delete' option of %s is not set"
                                                          % (obj, attr.name, attr))
                         elif isinstance(reverse, Set):
-                            if attr not in obj._vals_: continue
-                            val = get_val(attr)
+                            # load the value of an object known by primary key only: a later attr.load(obj) in this loop
+                            # would link obj into the collection of val after this attribute has been passed
+                            val = get_val(attr) if attr in obj._vals_ else attr.load(obj)
                             if val is None: continue
                             reverse.reverse_remove((val,), obj, undo_funcs)
                         else: throw(NotImplementedError)
